@@ -276,7 +276,7 @@ Definition pden (p : portionexpr) : vval :=
   match eval_portion e p with Specific q => XV (VPortion q) | Remaining => XRemaining end.
 
 Definition chk_portion (p : portionexpr) : bool :=
-  match p with PConst q => q_in_unit q | PVar x => has_ty te x TPortion | PRemaining => true end.
+  match p with PConst q => q_in_unit q && q_reduced q | PVar x => has_ty te x TPortion | PRemaining => true end.
 
 Lemma denote_portion p : chk_portion p = true -> denote e (match gen_portion ve p with EIns (IApush r) => r | _ => RConst CRemaining end) = pden p.
 Proof.
